@@ -9,5 +9,5 @@ CONSTANTS
   FIX_ERR = TRUE
   FIX_RACE = TRUE
   FIX_RDCLOSED = TRUE
-PROPERTY Returns
+PROPERTY Returns ClosedPromptly
 CHECK_DEADLOCK FALSE
